@@ -176,6 +176,42 @@ HexOK ==
     /\ DSHash(1) = "sha1" /\ DSHash(2) = "sha256" /\ DSHash(4) = "sha384" /\ DSHash(3) = "none" /\ DSHash(0) = "none"
 
 -----------------------------------------------------------------------------
+\* BIND private-key text: c = <<kind, layout>>.  Every layout of a kind is well-formed and means the same key
+\* fields, with the markers and with values put in their place; hand-written texts.
+KFPlain == [fmt |-> "v1.3", timing |-> FALSE, mnem |-> TRUE, blank |-> "none", finalnl |-> TRUE]
+KFInst(tpl, val, mn) == Concat([i \in 1..Len(tpl) |-> IF tpl[i] = KFVal THEN val ELSE IF tpl[i] = KFMnem THEN mn ELSE <<tpl[i]>>])
+KFCount(t, o) == Cardinality({ i \in 1..Len(t) : t[i] = o })
+KeyFileOK ==
+  kind = "keyfile" =>
+    LET t == KFTemplate(c[1], c[2])  lay == c[2]  b == KFBlanks(lay.blank)
+        nlines == 2 + Len(KFKeyNames(c[1])) + (IF lay.timing THEN 3 ELSE 0)
+        inst(x) == KFInst(x, <<65, 47, 43, 61>>, <<82, 83, 65>>) IN
+    /\ KFWellFormed(t)
+    /\ KFKeyFields(t) = KFTemplateFields(c[1])
+    /\ KFSameKey(t, KFTemplate(c[1], KFPlain))
+    /\ KFSameKey(inst(t), inst(KFTemplate(c[1], KFPlain)))
+    /\ Cardinality(KFFields(t)) = nlines
+    /\ KFCount(t, 10) = nlines - 1 + b[1] + (nlines - 1) * b[2] + b[3] + (IF lay.finalnl THEN 1 ELSE 0)
+    /\ KFCount(t, KFVal) = nlines - 1 - (IF lay.timing THEN 3 ELSE 0)
+    /\ KFCount(t, KFMnem) = (IF lay.mnem THEN 1 ELSE 0)
+    /\ ~KFSameKey(t, KFTemplate(IF c[1] = "rsa" THEN "ec" ELSE "rsa", lay))
+KFHand == <<80, 114, 105, 118, 97, 116, 101, 45, 107, 101, 121, 45, 102, 111, 114, 109, 97, 116, 58, 32, 118, 49, 46, 51, 10,    \* Private-key-format: v1.3 LF
+            65, 108, 103, 111, 114, 105, 116, 104, 109, 58, 32, 49, 51, 32, 40, 88, 41, 10,                                           \* Algorithm: 13 (X) LF
+            80, 114, 105, 118, 97, 116, 101, 75, 101, 121, 58, 32, 65, 66>>                                                           \* PrivateKey: AB     (no LF)
+KeyFileKnown ==
+  kind = "zone" =>
+    /\ KFWellFormed(KFHand)
+    /\ KFKeyFields(KFHand) = { << KFnAlgorithm, <<49, 51>> >>, << <<112, 114, 105, 118, 97, 116, 101, 107, 101, 121>>, <<65, 66>> >> }
+    /\ KFSameKey(KFHand, KFHand \o <<10>>) /\ KFSameKey(KFHand, <<10>> \o KFHand \o <<10, 10>>)
+    /\ ~KFSameKey(KFHand, Take(KFHand, Len(KFHand) - 1))                  \* another value
+    /\ ~KFSameKey(KFHand, Take(KFHand, 42))                               \* the last field lost
+    /\ ~KFWellFormed(Drop(KFHand, 25))                                    \* no format line
+    /\ ~KFWellFormed(KFHand \o <<10>> \o Drop(KFHand, 43) \o <<67>>)      \* PrivateKey twice, two values
+    /\ KFLines(<<>>) = { <<>> } /\ KFFields(<<10, 10>>) = {}
+    /\ Cardinality(KFLayouts(FALSE)) = 48 /\ Cardinality(KFLayouts(TRUE)) = 72
+    /\ DSPanicKey(3) = "ds/panics:undefined-type" /\ DSPanicKey(2) = "ds/panics:sha256"
+
+-----------------------------------------------------------------------------
 Init ==
   \/ kind = "keytag" /\ c \in KTUniverse
   \/ kind = "cover"  /\ c \in HS \X HS \X HS \X {0, 1}
@@ -187,5 +223,6 @@ Init ==
   \/ kind = "b32"    /\ c \in B32Universe
   \/ kind = "b32pair" /\ c \in [1..2 -> {0, 7, 8, 255}] \X [1..2 -> {0, 7, 8, 255}]
   \/ kind = "ds"     /\ c \in DSNames \X { <<>>, <<1, 0, 3, 8, 255>> }
+  \/ kind = "keyfile" /\ c \in {"rsa", "ec"} \X KFLayouts(TRUE)
 Next == UNCHANGED <<kind, c>>
 =============================================================================
